@@ -101,6 +101,13 @@ def publish_rules(ctx):
     snapc = snap[0][1]
     nxt = lambda e: e[0] == 'bin' and e[1] == 'Add' and is_const(e[3], 1) and e[2][0] == 'call' and call_is(e[2], 'get_latest_epoch') and \
         ds.snapshot_derived(arg(e[2], 0), snapc)
+    # the versions a publish builds on are read "as of" the snapshot (rows of an unfinished epoch are invisible)
+    uv = find_events(b, 'StorageManager::get_user_state_versions')
+    ok = len(uv) == 1 and spec_match(arg(uv[0][1], 2), lambda e: e[0] == 'agg' and e[1] == 'ValueStateRetrievalFlag' and e[2] == 'LeqEpoch' and
+                                     e[3][0][1][0] == 'call' and call_is(e[3][0][1], 'get_latest_epoch') and ds.snapshot_derived(arg(e[3][0][1], 0), snapc))
+    ctx.ob('C01.P.versions_bounded', 'RF-SNAP', ok, b.path, where, 'current versions are read with LeqEpoch(snapshot epoch)' if ok else
+           'publish does not read the labels\' current versions bounded by the snapshot epoch (value states written by an unfinished '
+           'commit would be built upon): %s' % [show(arg(c, 2))[:80] for ev, c in uv], key='RF-SNAP|C01.P.versions_bounded')
     # epoch stamps
     vs = [c for ev in b.events() for c in ev['calls'] if isinstance(c, tuple) and c[0] == 'call' and call_is(c, 'ValueState::new')]
     ok = bool(vs) and all(nxt(arg(c, 4)) for c in vs)
